@@ -182,6 +182,19 @@ func vpRefTokenize2(text []byte) (toks []vpTok, cut bool, invalid bool) {
 func VP_C14_tokens() {
 	L := vpParam("L")
 	text := vpBytes("t", L)
+	if vpParam("OPS") == 2 {
+		// identifier alphabet: ASCII letters/digits/$/_ and the bytes of U+0301 (combining acute: part, not start),
+		// U+0661 (Arabic-Indic digit: part, not start), U+00E9 (letter) and space
+		for _, c := range text {
+			ok := false
+			for _, a := range []byte("a1$_ \xcc\x81\xd9\xa1\xc3\xa9") {
+				if c == a {
+					ok = true
+				}
+			}
+			vpAssume(ok)
+		}
+	}
 	if vpParam("OPS") == 1 {
 		// operator-dense alphabet (longer texts at the same cost)
 		for _, c := range text {
